@@ -209,11 +209,17 @@ pub fn main(o: &Opts) -> Result<i32, String> {
                         }
                     },
                 }
-                // decrypt inverts ...
-                let mut back = vec![0u8; pt.len()];
-                match catch_unwind(AssertUnwindSafe(|| ci.decrypt(n, &ad, &want, &mut back))) {
-                    Ok(Ok(l)) if l == pt.len() && back == pt => {},
-                    other => push(&mut viols, bname, ca.name(), c, "decrypt_inverts", "Ok(plaintext)".into(), format!("{:?}", other.map(|r| r.map_err(|e| format!("{e:?}"))).map_err(|_| "panic"))),
+                // decrypt inverts, whatever room the output buffer has beyond the plaintext
+                for slack in [0usize, 1, 8, 15, 16, 17, 100] {
+                    let mut back = vec![0u8; pt.len() + slack];
+                    n_eval += 1;
+                    match catch_unwind(AssertUnwindSafe(|| ci.decrypt(n, &ad, &want, &mut back))) {
+                        Ok(Ok(l)) if l == pt.len() && back[..l] == pt[..] => {},
+                        other => {
+                            push(&mut viols, bname, ca.name(), c, &format!("decrypt_inverts_slack{slack}"), "Ok(plaintext)".into(), format!("{:?}", other.map(|r| r.map_err(|e| format!("{e:?}"))).map_err(|_| "panic")));
+                            break;
+                        },
+                    }
                 }
                 // ... and rejects everything else
                 let mut rej: Vec<(&str, [u8; 32], u64, Vec<u8>, Vec<u8>)> = vec![
@@ -321,6 +327,26 @@ pub fn main(o: &Opts) -> Result<i32, String> {
                             }
                         }
                         distinct.insert(format!("{bname}|{}|keygen", da.name()));
+                        // a key object that is re-set keeps no trace of its previous key: after an unusable private key
+                        // (P-256: zero / >= group order) dh() must not answer with the previous key's secret
+                        if da == DhAlg::P256 {
+                            let good = crate::eval::junk_bytes(seed, "prim:reuse", 32);
+                            let peer = crate::prims::dh_pub(da, &crate::eval::junk_bytes(seed, "prim:reuse2", 32)).unwrap_or_default();
+                            for bad in [vec![0u8; 32], vec![0xffu8; 32]] {
+                                d.set(&good);
+                                let r = catch_unwind(AssertUnwindSafe(|| {
+                                    d.set(&bad);
+                                    let mut out = vec![0u8; 65];
+                                    d.dh(&peer, &mut out).map(|_| out)
+                                }));
+                                n_eval += 1;
+                                match r {
+                                    Ok(Err(_)) => {},
+                                    Ok(Ok(_)) => push(&mut viols, bname, da.name(), c, "dh_after_unusable_key", "Err".into(), "Ok(a shared secret)".into()),
+                                    Err(_) => push(&mut viols, bname, da.name(), c, "panic", "Err".into(), "panic".into()),
+                                }
+                            }
+                        }
                     },
                 }
             }
